@@ -6,11 +6,9 @@ package main
 //   refClient   — reference controller speaking HTTP (plaintext, then HAP-framed) over a net.Conn
 
 import (
-	"syscall"
-	"strconv"
-	gocontext "context"
 	"bufio"
 	"bytes"
+	gocontext "context"
 	"errors"
 	"fmt"
 	"image"
@@ -22,8 +20,10 @@ import (
 	"net/http/httptest"
 	"os"
 	"os/exec"
+	"strconv"
 	"strings"
 	"sync"
+	"syscall"
 	"time"
 
 	"github.com/brutella/hc"
@@ -31,8 +31,8 @@ import (
 	"github.com/brutella/hc/db"
 	"github.com/brutella/hc/event"
 	"github.com/brutella/hc/hap"
-	hclog "github.com/brutella/hc/log"
 	haphttp "github.com/brutella/hc/hap/http"
+	hclog "github.com/brutella/hc/log"
 	"github.com/brutella/hc/util"
 )
 
@@ -336,7 +336,7 @@ type refClient struct {
 	timeout time.Duration
 	expect  bool       // plaintext requests with a body are sent with "Expect: 100-continue": head, wait for the interim answer, body
 	seg     *rand.Rand // when set, every request is delivered in several TCP segments
-	Events  []refMsg // EVENT messages received so far (in order)
+	Events  []refMsg   // EVENT messages received so far (in order)
 	broken  string
 }
 
@@ -576,6 +576,11 @@ func serveAccessory(dir string) {
 	if n, _ := strconv.Atoi(os.Getenv("HC_VERIF_NOFILE")); n > 0 {
 		// a small descriptor table (set after start-up: only connections accepted from now on run into it)
 		syscall.Setrlimit(syscall.RLIMIT_NOFILE, &syscall.Rlimit{Cur: uint64(n), Max: uint64(n)})
+	}
+	if n, _ := strconv.ParseUint(os.Getenv("HC_VERIF_AS"), 10, 64); n > 0 {
+		// a small address space, as on the boards such accessories run on: a request that makes the process allocate
+		// beyond it ends the process
+		syscall.Setrlimit(syscall.RLIMIT_AS, &syscall.Rlimit{Cur: n, Max: n})
 	}
 	fmt.Printf("READY %s %d %d\n", acc.port, sw.ID, sw.Switch.On.ID)
 	io.Copy(ioutil.Discard, os.Stdin)
